@@ -17,6 +17,7 @@ params:
   subs     [{S: time, script: ["V"|"E"|"F",...], dur: ticks, nargs, nkw, kwnames: [...], K: [cancel times],
              xcancel: {tap: i, at: t}  (somebody else cancels the future tap i returned),
              cb: bool, thread: client index, nested: bool (callable submits a probe to the same executor),
+             nested_cb: bool (a done-callback submits to the same executor), wait: bool (a client blocks in result()),
              fault: {site, k}}]
   shutdown {"at": t, "wait": bool, "repeat": n} | None
   probe    time at which a fresh submission probes liveness (C18) | None
@@ -249,6 +250,13 @@ def build(p):
                 state["futs"][j] = fut
                 if sb.get("cb"):
                     H.add_cb(fut, j, 1)
+                if sb.get("nested_cb"):
+                    def ncb(f_, j=j):
+                        pf = H.do_submit(top, 200 + j, H.Scripted(200 + j, [("V", Val((200 + j, 1)))]))
+                        state["futs"][200 + j] = pf
+                    fut.add_done_callback(ncb)
+                if sb.get("wait"):
+                    E.spawn("wait%d" % j, lambda f=fut, j=j: H.do_result(f, j))
                 for n, when in enumerate(sb.get("K", []) or []):
                     E.spawn("can%d_%d" % (j, n), canceller, j, fut, when, n)
                 if sb.get("xcancel"):
